@@ -173,6 +173,26 @@ PROPS = {
         "technique": "property-based testing (rapid): generated send histories, independent-decoder + differential (WriteMessage twin) oracle; race-detector leg",
         "legs": [leg("^TestC19$", 2500, 25000, qshards=8), raceleg("^TestC19Conc$", 200, 3000)],
     },
+    "C12": {
+        "title": "Server handshake: upgrade iff request is a valid opening handshake; correct 101",
+        "level": "exploration",
+        "rule": "requests are generated from the handshake grammar as raw bytes (method; Connection/Upgrade token lists over 1-2 lines with arbitrary OWS, case variants, extra tokens and near-miss tokens such as websockets/xupgrade/upgrade2; version values and lists; keys = base64 of 0..32 bytes, bad alphabet, wrong padding, missing, doubled; own/foreign/absent origin with default/allow/deny policy; subprotocol offers; 18 extension offers incl. parameters, quoted strings, near-miss names) in three modes (all elements valid / exactly one faulty element / free mix), parsed by http.ReadRequest, and given to Upgrade with generated Upgrader settings (Subprotocols nil/empty/lists, EnableCompression, buffers, pool) and responseHeader maps whose values are arbitrary bytes incl. CR, LF, NUL. An independent classifier (RFC 6455 4.2.1, RFC 7230 list syntax) says valid / invalid(faults) / unspecified. valid => Conn returned, hijacked once, and the bytes written are exactly one response accepted by a strict parser (CRLF only, no bare CR/LF): 101, Upgrade: websocket, Connection: Upgrade, Accept = independent SHA-1 digest of the key, subprotocol in offers AND Subprotocols (and present when they intersect), extension announcement only if enabled AND offered, header-name multiset == protocol headers + application headers (no injected line), nothing after the blank line. invalid => HandshakeError, never hijacked, status >= 400 (403 when origin is the only fault, 426 + Upgrade header when the Upgrade token is the only fault), nothing written to the raw connection. Non-trivial = valid request with multi-token lists or several lines, invalid request with exactly one fault, response header values with control bytes.",
+        "assumptions": TRUST + ["unspecified zones (empty list elements, non-token junk, version lists containing 13, several key/origin/protocol lines, non-canonical base64) are only checked for consistency"],
+        "level_text": "Bounded random exploration of the request grammar and Upgrader settings against an independent classifier and a strict response parser.",
+        "level_note": "net/http's request parser is the trusted front end (requests it refuses are counted and discarded).",
+        "technique": "property-based testing (rapid): grammar-based request generator, independent classifier + strict-parser oracle",
+        "legs": [leg("^TestC12$", 5000, 50000, qshards=8)],
+    },
+    "C13": {
+        "title": "Default origin policy admits same-origin requests only",
+        "level": "exploration",
+        "rule": "(Host, Origin) pairs: Host from 13 shapes (names, ports, IPv4/IPv6 literals, mixed case, hosts containing k/s/i); Origin derived by one of 21 constructions: absent, same, same in another ASCII case, one-character edit, added/removed label, prefix/suffix look-alike, different / missing / added (default) port, userinfo tricks (host@evil, host:80@evil, evil@host), code points that fold to ASCII only under Unicode folding (U+212A, U+017F, U+0130, U+0131, full-width, Greek omicron), percent-encoded host bytes incl. malformed escapes, null, junk, fragment/query/path tricks, other hosts, backslashes, IPv6 spelling variants, scheme-less. Each pair is tried both as a directly constructed request and through http.ReadRequest. Oracle: safety - if Upgrade succeeds the Origin was absent or an independent RFC 3986 authority extractor (last @, percent-decoded) yields host[:port] equal to Host under ASCII-only folding; liveness - absent Origin and clean same-origin constructions are upgraded; every refusal is 403 + HandshakeError without hijack. Non-trivial = origin host within 2 code-point edits of Host, Unicode-only fold, or same-origin differing in case.",
+        "assumptions": TRUST,
+        "level_text": "Bounded random exploration of adversarial near-miss origins against an independent origin-host extractor.",
+        "level_note": "The extractor is written from RFC 3986 section 3.2 in harness/wsref.",
+        "technique": "property-based testing (rapid): adversarial origin generator, independent-parser oracle (safety + liveness)",
+        "legs": [leg("^TestC13$", 6000, 100000, qshards=8)],
+    },
 }
 
 NOT_APPLICABLE = [
